@@ -48,9 +48,12 @@ def cases(tier, seed, shard, nshards):
             yield {"kind": "groupby", "gb": dict(gb, key="half", susp=0), "fault_at": rng.choice([None, 1, 1, 2, 3]),
                    "exc": rng.choice(["ValueError", "TypeError", "Injected"])}
     for i in range(max(1, n // 6)):
-        yield {"kind": "exitstack", "entries": [[rng.choice(["push", "callback"]), rng.choice(["falsy", "truthy", "raise"])]
-                                                 for _ in range(rng.randint(1, 3))],
-               "body_raises": rng.random() < 0.6}
+        entries = []
+        for _ in range(rng.randint(1, 3)):
+            kind = rng.choice(["push", "callback", "enter"])
+            beh = rng.choice(["falsy", "truthy", "raise"] + (["enter_raises", "enter_raises_truthy"] if kind == "enter" else []))
+            entries.append([kind, beh])
+        yield {"kind": "exitstack", "entries": entries, "body_raises": rng.random() < 0.6, "catch_enter": rng.random() < 0.5}
 
 
 def _vectors(nsrc, nfn, rng, maxvec):
@@ -136,6 +139,38 @@ def run_exitstack(case, stats):
 
     entries = case["entries"]
 
+    class EnterFailed(Exception):
+        pass
+
+    def make_cm(i, beh, fl):
+        def enter():
+            CTX.ev("cm-enter", i)
+            if beh.startswith("enter_raises"):
+                raise EnterFailed(i)
+            return ("value", i)
+
+        def leave(et, ev, tb):
+            CTX.ev("cm-exit", i, et.__name__ if et else None)
+            if beh == "raise":
+                raise LookupError(f"exit {i}")
+            return beh in ("truthy", "enter_raises_truthy")
+
+        class SyncCM:
+            def __enter__(self):
+                return enter()
+
+            def __exit__(self, et, ev, tb):
+                return leave(et, ev, tb)
+
+        class AsyncCM:
+            async def __aenter__(self):
+                return enter()
+
+            async def __aexit__(self, et, ev, tb):
+                return leave(et, ev, tb)
+
+        return SyncCM() if fl == "def" else AsyncCM()
+
     def execute(fvec):
         CTX.reset()
         body_exc = KeyError("body")
@@ -147,6 +182,17 @@ def run_exitstack(case, stats):
             try:
                 async with stack:
                     for i, ((kind, beh), fl) in enumerate(zip(entries, fvec)):
+                        if kind == "enter":
+                            # a context manager handed to enter_context: plain ("def") or asynchronous flavour
+                            try:
+                                value = await stack.enter_context(make_cm(i, beh, fl))
+                                CTX.ev("entered", i, value)
+                            except EnterFailed:
+                                if not case.get("catch_enter"):
+                                    raise
+                                CTX.ev("enter-failure-handled", i)
+                            continue
+
                         def impl(*args, _beh=beh, _i=i, **kw):
                             if _beh == "raise":
                                 raise LookupError(f"exit {_i}")
@@ -169,13 +215,19 @@ def run_exitstack(case, stats):
             return outcome
 
         outcome = drive(main())
-        calls = [(e[1], tuple(x[1] if x[0] == "v" else x[0] for x in e[2][1:])) for e in CTX.log if e[0] == "call"]
-        # exception arguments are compared by type name only (canon gives ("E", name))
-        return outcome, [(n, tuple(str(a) for a in args)) for n, args in calls], list(CTX.foreign)
+        trace = []
+        for e in CTX.log:
+            if e[0] == "call":
+                # exception arguments are compared by type name only (canon gives ("E", name))
+                trace.append((e[1], tuple(str(x[1] if x[0] == "v" else x[0]) for x in e[2][1:])))
+            elif e[0] in ("cm-enter", "cm-exit", "entered", "enter-failure-handled"):
+                trace.append(tuple(map(str, e)))
+        return outcome, trace, list(CTX.foreign)
 
     base = execute(["def"] * len(entries))
     viols, sigs, evals = [], [], 0
-    for fvec in itertools.product(FN_FL, repeat=len(entries)):
+    options = [FN_FL if kind != "enter" else ["def", "async_def"] for kind, _ in entries]
+    for fvec in itertools.product(*options):
         if all(f == "def" for f in fvec):
             continue
         evals += 1
